@@ -540,6 +540,9 @@ func (x *tr) stmts(list []ast.Stmt, fall string, ind string) string {
 				val := "default"
 				if i < len(vs.Values) {
 					val = x.expr(vs.Values[i])
+				} else if _, isFn := vs.Type.(*ast.FuncType); isFn {
+					// a function variable: represented by the NAME of the function it is assigned (symbol table)
+					val = "\"\""
 				} else if id, ok := vs.Type.(*ast.Ident); ok {
 					switch id.Name {
 					case "int", "int64", "int32", "uint32", "uint64", "uint":
@@ -624,6 +627,18 @@ func (x *tr) stmts(list []ast.Stmt, fall string, ind string) string {
 		}
 		if len(v.Lhs) > 2 && len(v.Rhs) == 1 {
 			// n results of one call: the right-hand side is a (right-nested) tuple
+			if cc, ok := x.isCall(v.Rhs[0]); ok {
+				// … of a call with an effect: ((r1, …, rn), fx')
+				pats := make([]string, len(v.Lhs))
+				for i, l := range v.Lhs {
+					id, ok := l.(*ast.Ident)
+					if !ok {
+						return x.errf("assignment %s", x.src(v))
+					}
+					pats[i] = x.pat(id.Name)
+				}
+				return x.callLet("("+strings.Join(pats, ", ")+")", cc) + "\n" + ind + next()
+			}
 			pats := make([]string, len(v.Lhs))
 			for i, l := range v.Lhs {
 				id, ok := l.(*ast.Ident)
